@@ -309,6 +309,37 @@ def ob_verify_none():
     if r1 is not False or r2 != (False, None) or (n1, n2) != (1, 2):
         return violation("verify against a missing hash: results %r %r, dummy verifications %r" % (r1, r2, (n1, n2)), "disable:none",
                          {"module": "harness.c18", "func": "replay_none", "args": {}})
+    # ... and stays so while the configuration changes under a context that has already answered once: the dummy verification
+    # is made against the *current* default scheme (observed: the scheme of the hash handed to verify())
+    seen = []
+    real_verify = CryptContext.verify
+
+    def spy(self, secret, hash, *a, **k):
+        if hash is not None:
+            seen.append(self.identify(hash))
+        return real_verify(self, secret, hash, *a, **k)
+    changes = [("update(schemes=[md5_crypt, unix_disabled])", lambda c: c.update(schemes=["md5_crypt", "unix_disabled"]), "md5_crypt"),
+               ("update(default=md5_crypt)", lambda c: c.update(default="md5_crypt"), "md5_crypt"),
+               ("load(other configuration)", lambda c: c.load(dict(schemes=["sha512_crypt"], sha512_crypt__rounds=1000)), "sha512_crypt"),
+               ("update(sha256_crypt__rounds=1100)", lambda c: c.update(sha256_crypt__rounds=1100), "sha256_crypt"),
+               ("load(same configuration)", lambda c: c.load(c.to_dict()), "sha256_crypt")]
+    for label, change, want in changes:
+        c = CryptContext(["sha256_crypt", "md5_crypt", "unix_disabled"], sha256_crypt__rounds=1000, md5_crypt__salt_size=4)
+        try:
+            with patched((CryptContext, "verify", spy)):
+                a1 = c.verify("pw", None)
+                change(c)
+                del seen[:]
+                a2 = c.verify("pw", None)
+                used = list(seen)
+                a3 = c.verify_and_update("pw", None)
+        except Exception as e:
+            return violation("verify(p, None) before and after %s: raises %r" % (label, e), "disable:none-after-change",
+                             {"module": "harness.c18", "func": "replay_none", "args": {}})
+        if a1 is not False or a2 is not False or a3 != (False, None) or used != [want]:
+            return violation("verify(p, None) before and after %s: answers %r %r %r, dummy verification against %r (current default: %s)" %
+                             (label, a1, a2, a3, used, want), "disable:none-after-change",
+                             {"module": "harness.c18", "func": "replay_none", "args": {}})
     from passlib.hash import django_disabled as DJ
     d = DJ.disable("anything")
     bad = (not DJ.identify(d)) or DJ.verify("", d) or DJ.verify(d, d) or not DJ.identify(DJ.disable(d))
@@ -319,7 +350,8 @@ def ob_verify_none():
         pass
     if bad:
         return violation("django_disabled algebra broken", "disable:django", {"module": "harness.c18", "func": "replay_none", "args": {}})
-    return ok("verify(p, None) is False with exactly one dummy verification; django_disabled never verifies, cannot be enabled", paths=2,
+    return ok("verify(p, None) is False with exactly one dummy verification, also after 5 kinds of configuration change (made against "
+              "the current default scheme); django_disabled never verifies, cannot be enabled", paths=7,
               verdict="recorded-calls", nontrivial=False)
 
 
